@@ -209,3 +209,9 @@ func MemoCall(c *lib.Chain, to string, data []byte, value int64) string {
 	lib.Must(err)
 	return string(bz)
 }
+
+// RegisterAliases records the token's bridge denoms as aliases of its base denom in the erc20 module too (what
+// RegisterNativeCoin does for metadata with aliases); the refund of outgoing bridge calls converts through this map.
+func RegisterAliases(c *lib.Chain, ctx sdk.Context, t Token, extra ...string) {
+	c.App.Erc20Keeper.SetAliasesDenom(ctx, t.Base, append([]string{t.BridgeDenom}, extra...)...)
+}
